@@ -32,8 +32,10 @@ import (
 
 	"github.com/ozontech/file.d/cfg"
 	"github.com/ozontech/file.d/decoder"
+	"github.com/ozontech/file.d/fd"
 	"github.com/ozontech/file.d/pipeline"
 	"github.com/ozontech/file.d/pipeline/metadata"
+	_ "github.com/ozontech/file.d/plugin/action/split"
 	"github.com/ozontech/file.d/zzverif/fdkit"
 	"github.com/ozontech/file.d/zzverif/vkit"
 	"github.com/twmb/franz-go/pkg/kgo"
@@ -80,7 +82,10 @@ type C10Rec struct {
 	ID     int    `json:"id"` // > 0, unique
 	Offset int64  `json:"offset"`
 	Epoch  int32  `json:"epoch"`
-	Op     string `json:"op"`               // pass | discard
+	// pass | discard | split: the record is an array that the real split action turns into two children
+	// and a parent; the scripted action behind it joins the children (holds the first, collapses the
+	// second) until the split's own time-out event flushes it, the parent carries the offset
+	Op     string `json:"op"`
 	Stall  int    `json:"stall,omitempty"`  // n>0: n Gosched calls in the action, n<0: sleep -n * 200us
 	Refuse string `json:"refuse,omitempty"` // "", empty (no value), undecodable (not JSON): refused by Pipeline.In
 }
@@ -176,8 +181,11 @@ func genC10(t *rapid.T) C10Case {
 			}
 			r := C10Rec{ID: nextID, Offset: off, Epoch: epoch, Op: "pass"}
 			nextID++
-			if rapid.IntRange(0, 9).Draw(t, "op") >= 7 {
+			switch k := rapid.IntRange(0, 9).Draw(t, "op"); {
+			case k >= 7:
 				r.Op = "discard"
+			case k == 0 && rapid.Bool().Draw(t, "split"):
+				r.Op = "split"
 			}
 			switch rapid.IntRange(0, 9).Draw(t, "stall") {
 			case 0:
@@ -235,6 +243,9 @@ func (r *C10Rec) value() []byte {
 		return nil
 	case "undecodable":
 		return []byte(fmt.Sprintf(`{"id":%d,"x":`, r.ID))
+	}
+	if r.Op == "split" {
+		return []byte(fmt.Sprintf(`{"id":%d,"items":[{"id":%d,"k":1},{"id":%d,"k":2}]}`, r.ID, r.ID, r.ID))
 	}
 	return []byte(fmt.Sprintf(`{"id":%d}`, r.ID))
 }
@@ -652,6 +663,16 @@ func c10Old(eo kgo.EpochOffset, had bool) string {
 type c10Action struct {
 	h    *c10H
 	proc int
+	ctl  pipeline.ActionPluginController
+	held *pipeline.Event // first child of a split record, waiting for the rest (join-like)
+}
+
+func (a *c10Action) flush() {
+	if a.held != nil {
+		e := a.held
+		a.held = nil
+		a.ctl.Propagate(e)
+	}
 }
 
 func (a *c10Action) Start(_ pipeline.AnyConfig, params *pipeline.ActionPluginParams) {
@@ -662,14 +683,24 @@ func (a *c10Action) Start(_ pipeline.AnyConfig, params *pipeline.ActionPluginPar
 	}
 	a.proc = h.procOrd[params.Controller]
 	h.mu.Unlock()
+	a.ctl = params.Controller
 }
 func (a *c10Action) Stop() {}
 
 func (a *c10Action) Do(e *pipeline.Event) pipeline.ActionResult {
 	h := a.h
 	if e.IsTimeoutKind() {
+		a.flush()
 		return pipeline.ActionDiscard
 	}
+	if e.IsChildKind() {
+		if a.held == nil {
+			a.held = e
+			return pipeline.ActionHold
+		}
+		return pipeline.ActionCollapse
+	}
+	a.flush()
 	n := e.Root.Dig("id")
 	if n == nil {
 		return pipeline.ActionPass
@@ -926,6 +957,27 @@ func runC10(c C10Case) *vkit.Outcome {
 		PluginStaticInfo:  &pipeline.PluginStaticInfo{Type: "kafka", Config: config},
 		PluginRuntimeInfo: &pipeline.PluginRuntimeInfo{Plugin: in, ID: "kafka"},
 	})
+	hasSplit := false
+	for _, part := range c.Parts {
+		for _, r := range part.Records {
+			hasSplit = hasSplit || (r.Op == "split" && r.Refuse == "")
+		}
+	}
+	if hasSplit {
+		info, err := fd.DefaultPluginRegistry.Get(pipeline.PluginKindAction, "split")
+		if err != nil {
+			panic(err)
+		}
+		splitCfg, err := pipeline.GetConfig(info, []byte(`{"field":"items"}`), map[string]int{"capacity": c.Capacity, "gomaxprocs": runtime.GOMAXPROCS(0)})
+		if err != nil {
+			panic(err)
+		}
+		p.AddAction(&pipeline.ActionPluginStaticInfo{
+			PluginStaticInfo: &pipeline.PluginStaticInfo{Type: "split", Factory: info.Factory, Config: splitCfg},
+			MatchMode:        pipeline.MatchModeAnd,
+		})
+		o.Class("split-then-join-like-action")
+	}
 	p.AddAction(&pipeline.ActionPluginStaticInfo{
 		PluginStaticInfo: &pipeline.PluginStaticInfo{
 			Type:    "c10_action",
